@@ -10,6 +10,7 @@ import (
 	"os"
 	"sort"
 	"strings"
+	"sync"
 
 	"golang.org/x/tools/go/packages"
 	"golang.org/x/tools/go/ssa"
@@ -25,6 +26,7 @@ type Program struct {
 	PPkgs map[string]*packages.Package
 	Tags  string
 	Files map[string][]byte // source files (for expression text)
+	fmu   sync.Mutex
 }
 
 func LoadProgram(dir string, tags string) (*Program, error) {
@@ -131,6 +133,8 @@ func (p *Program) src(pos token.Pos, end token.Pos) string {
 		return ""
 	}
 	a, b := p.Fset.Position(pos), p.Fset.Position(end)
+	p.fmu.Lock()
+	defer p.fmu.Unlock()
 	data, ok := p.Files[a.Filename]
 	if !ok {
 		d, err := os.ReadFile(a.Filename)
